@@ -253,7 +253,8 @@ Theorem C09_batch_concat xs : Forall wf xs -> u32 (N.of_nat (length xs)) ->
 Proof. exact (batch_concat_spec xs). Qed.
 Print Assumptions C09_batch_concat.
 
-(* FWD_SHAPE(Split): each of the n outputs has this shape *)
+(* FWD_SHAPE(Split): each of the n outputs has this shape; admissible iff n <> 0 divides the
+   axis, for every axis (an axis >= depth has size 1 and forces n = 1) *)
 Theorem C09_split x dim n : wf x -> u32 dim -> u32 n ->
   match split x dim n with
   | Some r => split_admissible x dim n /\ wf r /\ batch r = batch x /\
@@ -339,6 +340,9 @@ Example C09_nonvacuous_rules :
   matmul (mkS [2; 3] 1 6) (mkS [3; 4] 5 12) = Some (mkS [2; 4] 5 8) /\
   broadcast (mkS [2; 1; 2] 1 4) 1 2147483648 = None /\
   batch_concat [mkS [2] 2147483648 2; mkS [2] 2147483648 2; mkS [2] 5 2] = None /\
+  split (mkS [2; 6] 1 12) 1 3 = Some (mkS [2; 2] 1 4) /\
+  split (mkS [2; 6] 1 12) 9 1 = Some (mkS [2; 6] 1 12) /\
+  split (mkS [2; 6] 1 12) 1 4 = None /\
   has_same_loo_dims (mkS [2; 3; 1; 5] 4 30) (mkS [2; 7; 1; 5] 1 70) 1 = true /\
   has_same_loo_dims (mkS [2; 3] 1 6) (mkS [2; 3; 4] 1 24) 1 = false.
 Proof. vm_compute. repeat split; reflexivity. Qed.
